@@ -282,6 +282,8 @@ structure ReplicaOr where
   view : Nat := 1
   hqcView : Nat := 0
   committedView : Nat := 0
+  tmoView : Nat := 0            -- the view for which `tmoFrom` is collected (the replica's view at that time)
+  tmoFrom : List Nat := []      -- distinct senders of well-formed timeouts for `tmoView` seen while in that view
 
 def splitOn (sep : String) (toks : List String) : List (List String) :=
   toks.foldr (fun t acc => if t == sep then [] :: acc else match acc with
@@ -331,7 +333,7 @@ def replicaOracleStep (o : ReplicaOr) (toks : List String) : ReplicaOr × String
     | "local-timeout" :: _ => true
     | ["start"] => true
     | _ => false
-  if lhs.head? == some "replica" then ({ o1 with lastVote := 0, maxTimeout := 0, anyVote := false, view := 1, hqcView := 0, committedView := 0, lastDump := [] }, "pass") else
+  if lhs.head? == some "replica" then ({ o1 with lastVote := 0, maxTimeout := 0, anyVote := false, view := 1, hqcView := 0, committedView := 0, lastDump := [], tmoView := 0, tmoFrom := [] }, "pass") else
   if !isStep then (o1, "pass") else
   if rhs == ["bad-op"] then (o1, "pass") else
   if rhs.contains "panic" then (o1, s!"fail panic on {joinWith " " lhs}") else
@@ -397,7 +399,28 @@ def replicaOracleStep (o : ReplicaOr) (toks : List String) : ReplicaOr × String
       | some b => b.view == hqView && decide (cs.cfg.quorum ≤ (genuineSigners cs (blkMsg b.hash)).length)
       | none => false) then
     (o3, s!"fail hqc-unsound high QC moved to {hqView}:{hqName} without a quorum of genuine votes for that block")
-  else (o3, "pass")
+  else
+  -- C08 (completeness): well-formed timeouts for the replica's current view from a quorum of
+  -- distinct senders, received while it is in that view, must move it out of that view
+  let single (sg : Option Sig) (id : Nat) (m : Msg) : Bool := match sg with
+    | some g => g.len == 1 && g.participants == [id] && (signersFor (fun x => cs.truth.lookup x) cs.cfg g m) == [id]
+    | none => false
+  let sender : Option Nat := match lhs with
+    | "deliver" :: "timeout" :: name :: rest =>
+      match cs.tmos.lookup name with
+      | some t =>
+        let id := (natField "from" rest).getD t.id
+        if t.view == o2.view && cs.cfg.has id && single t.viewSig id (viewMsg t.view) &&
+           (!c.agg || (t.qc.isSome && single t.msgSig id (tmoKey id t.view t.qc))) then some id else none
+      | none => none
+    | _ =>
+      if effs.any (fun e => e.startsWith s!"timeout(id={c.id},v={o2.view},") then some c.id else none
+  let from0 := if o2.tmoView == o2.view then o2.tmoFrom else []
+  let from1 := match sender with | some id => if from0.contains id then from0 else from0 ++ [id] | none => from0
+  let o4 := { o3 with tmoView := o2.view, tmoFrom := from1 }
+  if view == o2.view && cs.cfg.quorum ≤ from1.length && 2 ≤ from1.length then
+    (o4, s!"fail timeout-quorum-stuck well-formed timeouts for view {view} from {natList from1} (quorum {cs.cfg.quorum}) arrived while the replica was in that view, but it did not leave it")
+  else (o4, "pass")
 
 -- @family "replica.oracle" replicaOracle
 def replicaOracle : Fam := { σ := ReplicaOr, init := {}, step := replicaOracleStep }
